@@ -150,6 +150,8 @@ out = {"mutated": json.dumps(a, sort_keys=True, default=str) != json.dumps(snap,
             res.corr["all:run"] = res.corr.get("all:run", 0) + 1
             if not same_outcome(impl_outcome(i), model_outcome(m)):
                 res.violation("correspondence", "model Api.run and DDLParser.run disagree", tie=True, layer="correspondence all (run)", ddl=t)
+        # ... and on every harvested test script the model can run (what it cannot is counted, not compared)
+        corr_run(ctx, res, ddls, label="F:run(harvested)")
     res.samples.append({"ddl": tailed[0], "calls": reqs[len(ddls) + len(gen)]["calls"]})
     res.samples.append({"ddl": gen[0]})
 
